@@ -47,6 +47,23 @@ def run(tier):
     for an, apre, bn, bpre in [(3, 0, 3, 0), (3, 1, 3, 0), (2, 0, 2, 0), (1, 0, 2, 0), (3, 0, 1, 0), (3, 0, 3, 1)]:
         for vpre in (0, 1):
             jobs.append(dict(base, harness="VerifC03Npm", params={"shape": 3, "vpre": vpre, "an": an, "apre": apre, "bn": bn, "bpre": bpre}))
+    # Cargo: single comparators and comma pairs
+    ccomps = [{"op": op, "n": n, "pre": pre, "x": x} for op in range(8) for n in (1, 2, 3) for pre in (0, 1) for x in (0, 1)
+              if not (pre and n < 3) and not (x and (n == 3 or op not in (0, 1)))]
+    for c in ccomps:
+        for vpre in (0, 1):
+            p = {"shape": 0, "vpre": vpre}
+            p.update(pref("a", c))
+            jobs.append(dict(base, harness="VerifC03Cargo", params=p))
+    cpairs = list(itertools.product(ccomps, repeat=2))
+    for i, (a, b) in enumerate(cpairs):
+        if i % (37 if q else 5):
+            continue
+        for vpre in (0, 1):
+            p = {"shape": 1, "vpre": vpre}
+            p.update(pref("a", a))
+            p.update(pref("b", b))
+            jobs.append(dict(base, harness="VerifC03Cargo", params=p))
     # PyPI
     for op in range(9):
         for n in (1, 2, 3):
@@ -65,5 +82,5 @@ def run(tier):
     return run_property("C03", tier, [Group("semver", jobs)],
                         required_covers=["requirement parsed", "reference matches", "reference rejects"],
                         assumptions=["oracles are transcriptions: node-semver 7 desugaring + prerelease admission rule (npm), PEP 440 specifier clauses on final releases (PyPI), Maven VersionRange; the real tools are not run",
-                                     "Cargo VersionReq is not decided (no transcription built); numbers are single digits; prerelease tags are single letters"],
+                                     "Cargo: the semver crate's VersionReq (comma = AND, bare version = caret, partial versions as ranges, .* wildcards, the prerelease admission rule) through the same primitive-bound desugaring; numbers are single digits; prerelease tags are single letters"],
                         bounds={"digits_per_number": 1, "comparators_per_requirement": 2})
